@@ -7,6 +7,7 @@ and timestamps under a set of process TZ configurations (os.environ['TZ'] + time
 import datetime
 import itertools
 import os
+import re
 import sys
 import time
 
@@ -353,11 +354,11 @@ ZONES = ['UTC', 'Etc/GMT+12', 'Etc/GMT-14', 'Asia/Kathmandu', 'Europe/Moscow', '
          'Africa/Casablanca', 'EST5EDT,M3.2.0,M11.1.0', 'XYZ-3:30ABC,M10.1.0/2,M3.3.0/3']
 
 
-def instants(thorough, zone):
+def instants(thorough, zone, step_days=None):
     """Epoch seconds to test: a day grid 1970..2106, boundaries, and every UTC-offset transition of the zone
     with +-{0,1,1799,1800,3599,3600} s."""
     out = set()
-    step_days = 1 if thorough else 7
+    step_days = step_days or (1 if thorough else 7)
     end = 0xffffffff
     for d in range(0, end // 86400 + 1, step_days):
         out.add(d * 86400)
@@ -491,6 +492,141 @@ def _ts_worker(args):
     return acc.result()
 
 
+# ---- every class that carries a binary timestamp, under the same process configurations ------------------------------------
+def timestamp_sites():
+    """[(class qualified name, field, width, milliseconds)] - message classes with a datetime-valued field that travels
+    as a big-endian count since the epoch (the primitive above is one way to write it; a class may use its own)."""
+    import attr
+    from mc import objects, classes
+    out = []
+    for cls, seeds in sorted(objects.base_seed_objects().items(), key=lambda kv: classes.qualname(kv[0])):
+        qn = classes.qualname(cls)
+        if qn.startswith('cryptoparser.httpx.') or qn.startswith('cryptoparser.common.field.'):
+            continue        # textual dates: C05 / C18
+        try:
+            fs = attr.fields(type(seeds[0]))
+        except Exception:  # noqa
+            continue
+        for f in fs:
+            if isinstance(getattr(seeds[0], f.name, None), datetime.datetime) or (
+                    f.name == 'valid_before' and hasattr(seeds[0], 'valid_after')):
+                out.append((qn, f.name))
+    return out
+
+
+def _with(seed, field, dt):
+    """The seed with field = dt: rebuilt through the constructor where that works (converters of other fields may
+    not accept their own output), else a copy with the attribute assigned."""
+    import attr
+    import copy
+    try:
+        return attr.evolve(seed, **{field: dt})
+    except (TypeError, ValueError):
+        o = copy.deepcopy(seed)
+        setattr(o, field, dt)
+        return o
+
+
+def _locate(seed, field, naive_ok):
+    """(offset, width, unit) of the field's count in the composed bytes, found under TZ=UTC with two probe instants."""
+    import attr
+    utc = datetime.timezone.utc
+    found = None
+    for width, unit in ((4, 1), (8, 1), (8, 1000)):
+        offs = None
+        for sec in (0x21436587, 0x4a5b6c7d):
+            dt = datetime.datetime(1970, 1, 1, tzinfo=utc) + datetime.timedelta(seconds=sec)
+            try:
+                b = bytes(_with(seed, field, dt).compose())
+            except Exception:  # noqa
+                if not naive_ok:
+                    return None
+                b = bytes(_with(seed, field, dt.replace(tzinfo=None)).compose())
+            needle = (sec * unit).to_bytes(width, 'big')
+            here = {i for i in range(len(b) - width + 1) if b[i:i + width] == needle}
+            offs = here if offs is None else offs & here
+        if offs:
+            found = (min(offs), width, unit)
+            if width == 4:
+                # a 4-octet match inside an 8-octet field: prefer the wider reading when the 4 octets before are zero
+                continue
+    return found
+
+
+def _site_worker(args):
+    zone, si, thorough = args
+    import attr
+    from mc import objects, classes
+    acc = core.Acc()
+    qn, field = timestamp_sites()[si]
+    cls = classes.class_by_name(qn)
+    seed = objects.base_seed_objects()[cls][0]
+    naive_seed = getattr(seed, field) is not None and getattr(seed, field).tzinfo is None
+    os.environ['TZ'] = 'UTC'
+    time.tzset()
+    loc = _locate(seed, field, naive_seed)
+    if loc is None:
+        acc.sample({'kind': 'site', 'cls': qn, 'field': field, 'skipped': 'count not located in the composed bytes'}, 1)
+        return acc.result()
+    off, width, unit = loc
+    os.environ['TZ'] = zone
+    time.tzset()
+    utc = datetime.timezone.utc
+    other = datetime.timezone(datetime.timedelta(hours=5, minutes=45))
+    ztag = 'utc' if zone == 'UTC' else ('fixed' if zone.startswith('Etc/') else 'posix' if ',' in zone else 'dst')
+    top = (1 << 32) - 1 if width == 4 else 1 << 33
+    heavy = 'Certificate' in qn      # ~1 ms per compose / parse
+    step = (29 if thorough else 183) if heavy else (7 if thorough else 29)
+    for sec in instants(thorough, zone, step):
+        if sec >= top:
+            continue
+        aware = datetime.datetime(1970, 1, 1, tzinfo=utc) + datetime.timedelta(seconds=sec)
+        flavours = [('aware_utc', aware), ('aware_other', aware.astimezone(other))]
+        if naive_seed:
+            flavours.insert(0, ('naive', aware.replace(tzinfo=None)))
+        ref = (sec * unit).to_bytes(width, 'big')
+        for flavour, dt in flavours:
+            acc.counters['transitions'] = acc.counters.get('transitions', 0) + 1
+            w = {'kind': 'site', 'zone': zone, 'cls': qn, 'field': field, 'epoch': sec, 'flavour': flavour}
+            try:
+                o = _with(seed, field, dt)
+            except Exception:  # noqa  (an aware value where only naive ones are accepted, or the reverse: C06/C08 domain)
+                continue
+            try:
+                b = bytes(o.compose())
+            except Exception as ex:  # noqa
+                acc.violation('site:%s.%s:compose_raises:%s:%s' % (cls.__name__, field, flavour, core.ename(ex)),
+                              'TZ=%s: %s with %s=%s cannot be composed' % (zone, cls.__name__, field, dt.isoformat()), w)
+                continue
+            if b[off:off + width] != ref:
+                got = int.from_bytes(b[off:off + width], 'big')
+                acc.violation('site:%s.%s:wrong_instant:%s:%s' % (cls.__name__, field, flavour, ztag),
+                              'TZ=%s: %s.%s = %s (epoch %d) is written as %d (off by %d)'
+                              % (zone, cls.__name__, field, dt.isoformat(), sec, got, got // unit - sec), w)
+                continue
+            if flavour != 'aware_utc':
+                continue
+            acc.counters['transitions'] += 1
+            try:
+                back = getattr(cls.parse_exact_size(b), field)
+            except Exception as ex:  # noqa
+                acc.violation('site:%s.%s:parse_raises:%s' % (cls.__name__, field, core.ename(ex)),
+                              'TZ=%s: the composed %s is rejected' % (zone, cls.__name__), w)
+                continue
+            if back is None:
+                continue        # the all-ones sentinel of a 4-octet field (covered above)
+            bu = back if back.tzinfo is not None else back.replace(tzinfo=utc)
+            if int((bu - datetime.datetime(1970, 1, 1, tzinfo=utc)).total_seconds()) != sec:
+                acc.violation('site:%s.%s:parse_wrong:%s' % (cls.__name__, field, ztag),
+                              'TZ=%s: epoch %d in %s.%s parses to %r' % (zone, sec, cls.__name__, field, back), w)
+    acc.state(core.h64('site', zone, qn, field))
+    if zone == 'UTC':
+        acc.sample({'kind': 'site', 'cls': qn, 'field': field, 'offset': off, 'width': width, 'unit': unit}, 1)
+    os.environ['TZ'] = 'UTC'
+    time.tzset()
+    return acc.result()
+
+
 def run(ctx):
     thorough = not ctx.quick
     items = []
@@ -506,6 +642,17 @@ def run(ctx):
     parts = 16
     ctx.pmap(_mpint_worker, [(p, parts, thorough) for p in range(parts)])
     ctx.pmap(_ts_worker, [(z, thorough) for z in ZONES])
+    sites = timestamp_sites()
+    heavy = [si for si, (qn, f) in enumerate(sites) if 'Certificate' in qn]
+    if not thorough:
+        # quick: one certificate class per format version (they share the code that writes the validity interval)
+        keep = {}
+        for si in heavy:
+            keep.setdefault((''.join(re.findall(r'V0\d', sites[si][0])), sites[si][1]), si)
+        heavy = set(heavy) - set(keep.values())
+    else:
+        heavy = set()
+    ctx.pmap(_site_worker, [(z, si, thorough) for si in range(len(sites)) if si not in heavy for z in ZONES])
     ctx.assumptions += [
         'reference: int.to_bytes/int.from_bytes; NATIVE byte order = sys.byteorder (%s)' % sys.byteorder,
         'timestamps: naive datetimes denote UTC wall-clock time (what parse_timestamp produces after '
@@ -516,7 +663,8 @@ def run(ctx):
     return ctx.finish(rule='widths 1-2 all values, width 3 %s, widths 4/8 boundary patterns, x4 byte orders, both '
                            'directions; out-of-range set per width; flag subsets (all 2^n for <=15 members) and all '
                            'words of 1-2 byte flag fields; fixed mpint [0,2^16] x 7 lengths x 4 orders; SSH mpint '
-                           '[-2^17,2^17] and +-(2^n+-1), n<=%d; timestamps under %d TZ settings'
+                           '[-2^17,2^17] and +-(2^n+-1), n<=%d; timestamps under %d TZ settings, through the primitive and '
+                           'through every message class with a timestamp field'
                            % ('all 2^24' if thorough else 'all values with <=2 non-zero bytes',
                               4097 if thorough else 1100, len(ZONES)))
 
@@ -562,6 +710,9 @@ def replay(ctx, w):
             except Exception as ex:  # noqa
                 acc.violation('sshmpint:parse_raises:%s:%s' % ('neg' if v < 0 else 'nonneg', core.ename(ex)), 'raises', w)
             res = acc.result()
+    elif k == 'site':
+        sites = timestamp_sites()
+        res = _site_worker((w['zone'], sites.index((w['cls'], w['field'])), True))
     else:
         res = _ts_worker((w['zone'], False))
         os.environ['TZ'] = 'UTC'
